@@ -123,8 +123,22 @@ func genDest(r *hx.Rand, n int, malformed bool, isDlq bool) Dest {
 	if r.Chance(1, den) {
 		l := r.Range(1, 3)
 		for i := 0; i < l; i++ {
-			d.Acts = append(d.Acts, Act{Call: r.Intn(6), Act: pick(r, []string{"empty", "empty", "err", "extra", "wrongpos", "dup", "swap"})})
+			a := Act{Call: r.Intn(6), Act: pick(r, []string{"empty", "empty", "err", "extra", "extra", "wrongpos", "dup", "swap", "short"})}
+			if r.Chance(1, 2) {
+				// the misbehaviour hits any ack of the reply / any surplus up to the batch size
+				a.N = r.Intn(n + 1)
+			}
+			d.Acts = append(d.Acts, a)
 		}
+	}
+	if malformed && r.Chance(1, 8) && n >= 2 {
+		// acks in several chunks, the misbehaviour in a chunk after a well-formed one
+		k := r.Range(1, n-1)
+		d.Chunks = []int{k}
+		if r.Bool() {
+			d.Chunks = append(d.Chunks, r.Range(1, n))
+		}
+		d.Acts = append(d.Acts, Act{Call: r.Range(1, 3), Act: pick(r, []string{"extra", "extra", "wrongpos", "dup", "swap", "short", "empty"}), N: r.Intn(n)})
 	}
 	if malformed && !isDlq && r.Chance(1, 10) {
 		// a destination that confirms nothing at all
@@ -274,6 +288,107 @@ func CondCases(lim limits, maxN, shard, shards int, emit func(Case)) {
 					}
 					c.Procs = []Proc{{Cond: true, Replies: []Reply{{Kinds: ks, Slack: mi % 2}}}}
 					emit(c)
+				}
+			}
+		}
+	}
+}
+
+// ---------- C09 exhaustive destination reply enumeration ----------
+
+func compositions(m int) [][]int {
+	if m == 0 {
+		return [][]int{{}}
+	}
+	var out [][]int
+	for k := 1; k <= m; k++ {
+		for _, rest := range compositions(m - k) {
+			out = append(out, append([]int{k}, rest...))
+		}
+	}
+	return out
+}
+
+// DestCases enumerates, for m records arriving at a destination (m <= maxM):
+// every way the plugin can cut its acks into chunks (all compositions of m),
+// every chunk index (and the call after the last chunk) and, at that chunk,
+// every malformed reply: empty, error, a surplus of 1..m acks, a wrong position
+// / a duplicate / a transposition at every ack of the chunk, the loss of the
+// last 1..k acks. The m records reach the destination directly, behind a
+// filtering or a splitting processor, with one record refused by the
+// destination, or as dead letters (then the DLQ destination misbehaves).
+// The shard takes every shards-th case.
+func DestCases(lim limits, maxM, shard, shards int, emit func(Case)) {
+	k := 0
+	for m := 1; m <= maxM; m++ {
+		for _, comp := range compositions(m) {
+			for j := 0; j <= len(comp); j++ {
+				cj := 0
+				if j < len(comp) {
+					cj = comp[j]
+				}
+				acts := []Act{{}, {Call: j, Act: "empty"}, {Call: j, Act: "err"}}
+				for x := 0; x < m; x++ {
+					acts = append(acts, Act{Call: j, Act: "extra", N: x})
+				}
+				for x := 0; x < cj; x++ {
+					acts = append(acts, Act{Call: j, Act: "wrongpos", N: x}, Act{Call: j, Act: "dup", N: x}, Act{Call: j, Act: "short", N: x})
+					if x+1 < cj {
+						acts = append(acts, Act{Call: j, Act: "swap", N: x})
+					}
+				}
+				for _, a := range acts {
+					if a.Act == "" && j > 0 {
+						continue // the well-formed run once per composition
+					}
+					for fl := 0; fl < 6; fl++ {
+						if (fl == 2 || fl == 3) && m < 2 {
+							continue
+						}
+						if m == maxM && maxM > 3 && fl > 0 {
+							continue // the largest scope only directly
+						}
+						k++
+						if k%shards != shard {
+							continue
+						}
+						d := plainDest()
+						d.Chunks = append([]int{}, comp...)
+						if a.Act != "" {
+							d.Acts = []Act{a}
+						}
+						c := Case{MaxAttempts: lim.attempts, MaxStall: lim.stall, SrcActs: []Act{}, Procs: []Proc{}, Dest: d, Dlq: plainDest()}
+						n := m
+						switch fl {
+						case 1: // the destination refuses the first record
+							c.Dest.Fail = [][]int{{0}}
+						case 2: // a processor filters the first record
+							n = m + 1
+						case 3: // a processor splits the first record in two
+							n = m - 1
+						case 4: // the destination refuses the last record
+							c.Dest.Fail = [][]int{{m - 1}}
+						case 5: // every record is refused: the DLQ destination gets m records and misbehaves
+							c.Dlq, c.Dest = d, plainDest()
+							c.Dest.FailMod = []int{1, 0}
+						}
+						for i := 0; i < n; i++ {
+							c.Recs = append(c.Recs, Rec{Pos: Pos{i}, ID: []int{i}, Cond: []int{1}})
+						}
+						if fl == 2 || fl == 3 {
+							ks := make([]Kind, n)
+							for i := range ks {
+								ks[i] = Kind{K: "same"}
+							}
+							if fl == 2 {
+								ks[0] = Kind{K: "filter"}
+							} else {
+								ks[0] = Kind{K: "multi", N: 2}
+							}
+							c.Procs = []Proc{{Replies: []Reply{{Kinds: ks}}}}
+						}
+						emit(c)
+					}
 				}
 			}
 		}
